@@ -13,7 +13,7 @@ from .const import (
 from ._validate_common import ValidationError, ValidationErrorData
 from .schema import extract_record_type, extract_logical_type, schema_name, parse_schema
 from .logical_writers import LOGICAL_WRITERS
-from ._schema_common import UnknownType
+from ._schema_common import UnknownType, default_datum
 from .types import Schema, NamedSchemas
 
 NoValue = object()
@@ -136,6 +136,17 @@ def _validate_map(datum, schema, named_schemas, parent_ns, raise_errors, options
     )
 
 
+def _field_value(datum, field, named_schemas):
+    """The value of a record field: what the mapping holds, else the value the
+    field's default denotes, else NoValue"""
+    name = field["name"]
+    if name in datum:
+        return datum[name]
+    if "default" in field:
+        return default_datum(field["type"], field["default"], named_schemas)
+    return NoValue
+
+
 def _validate_record(datum, schema, named_schemas, parent_ns, raise_errors, options):
     """
     Check that the data is a Mapping type with all schema defined fields
@@ -147,7 +158,7 @@ def _validate_record(datum, schema, named_schemas, parent_ns, raise_errors, opti
         and not ("-type" in datum and datum["-type"] != fullname)
         and all(
             _validate(
-                datum=datum.get(f["name"], f.get("default", NoValue)),
+                datum=_field_value(datum, f, named_schemas),
                 schema=f["type"],
                 named_schemas=named_schemas,
                 field=f"{fullname}.{f['name']}",
